@@ -38,8 +38,11 @@ def run(ctx):
         for k in (1, 2, 5):
             for we in (False, True):
                 tasks.append(dict(fn='illegal_mid_sequence', kw=dict(simname=sim, k=k, with_expected=we)))
-    for d in fam + wide:
+    for d in fam + wide + [{'name': 'vcd_names', 'params': {'w': 3}}, {'name': 'vcd_names', 'params': {'w': 1}}]:
         tasks.append(dict(fn='printers', kw=dict(design=d, seed=ctx.seed)))
+    for sim in SIMS:
+        for warm in (1, 3):
+            tasks.append(dict(fn='step_multiple_after_warmup', kw=dict(simname=sim, warm=warm)))
     # rtl_assert is specified for Simulation and FastSimulation only
     tasks = [t for t in tasks if not (t['fn'] == 'assertions' and t['kw']['simname'] == 'CompiledSimulation')]
     res = passcheck.pmap(_call, tasks)
@@ -64,6 +67,7 @@ def run(ctx):
                                       'stop_after_first_error',
                           'printers': 'print_trace bases 2/8/10/16 (+compact) and print_vcd parsed back',
                           'assertions': 'assert wire falls at cycle k in {0,1,3,6}',
+                          'step_multiple_after_warmup': 'step_multiple with expected outputs after 1 / 3 earlier cycles: no report for correct expectations, exactly one row for one wrong expectation',
                           'illegal_mid_sequence': 'step_multiple with an illegal value at step 1, 2, 5, with/without expected_outputs, vs single stepping',
                           'illegal_inputs': 'bitwidths 1,4,63,64,65,130 x {0,2^bw-1,2^(bw-1),2^bw,2^bw+5,-1,-2^bw,2^(bw+64)}'}[fn],
                    sample=[t for t in tasks if t['fn'] == fn][0])
